@@ -137,7 +137,7 @@ def checkC07 (p : PProject) (impl : Json) : PropOut := Id.run do
   let ds := parseDecls p.types
   let declared := ds.map (·.name)
   let usages := usagesOf p declared
-  let clos := closure ds ds.length (rootsOf usages)
+  let clos := closure ds (ds.length + 1) (rootsOf usages)
   let comps := components ds usages
   let mut mfails : List String := []
   if !isClosed ds clos then mfails := mfails ++ ["model-closure-not-closed"]
